@@ -253,12 +253,16 @@ pub(crate) enum Attack {
     /// hash of a forged, self-consistent block (the filters stay honest), the honest
     /// `SendBlocksProof` answer (the forged hash is missing), then `SendBlock` with the forged block
     BlkForgedMatchedMissing,
+    /// a made-up header with the NUMBER of a requested block of the chain, served right after
+    /// the genuine header (the MMR library keeps one leaf per position and drops the others
+    /// unverified)
+    BpForgedTwin,
 }
 
 /// the kinds `gen_step` drew from before kinds were appended (the draw of an old seed keeps its meaning)
 const OLD_ATTACKS: u64 = 34;
 
-pub(crate) const ATTACKS: [Attack; 35] = [
+pub(crate) const ATTACKS: [Attack; 36] = [
     Attack::BpSwapHeader,
     Attack::BpSwapHeaderReproved,
     Attack::BpForgedHeader,
@@ -294,6 +298,7 @@ pub(crate) const ATTACKS: [Attack; 35] = [
     Attack::BlkUnasked,
     Attack::BlkUnaskedForged,
     Attack::BlkForgedMatchedMissing,
+    Attack::BpForgedTwin,
 ];
 
 impl Attack {
@@ -1489,6 +1494,23 @@ fn mutate_bp(
             let k = parts.headers.len() - 1;
             parts.headers[k] = fh.data();
             note = format!("forged header at height {} served with the proof of the real block", n);
+        }
+        Attack::BpForgedTwin => {
+            // a requested hash that is the hash of a forged header whose number is the number of
+            // a requested block of the chain: serve both, the forged one second
+            let j = parts.missing.iter().position(|h| forged.get(h).map(|f| numbers.contains(&f.number())).unwrap_or(false))?;
+            let fh = forged.get(&parts.missing[j]).unwrap().clone();
+            let n = fh.number();
+            let mut miss = parts.missing.clone();
+            miss.remove(j);
+            parts = bp_parts(chain, last, &numbers, miss)?;
+            let k = numbers.iter().position(|x| *x == n)?;
+            parts.headers.insert(k + 1, fh.data());
+            let u = parts.uncles_hashes[k].clone();
+            parts.uncles_hashes.insert(k + 1, u);
+            let e = parts.extensions[k].clone();
+            parts.extensions.insert(k + 1, e);
+            note = format!("forged header at height {} served after the real block of that height", n);
         }
         _ => return None,
     }
@@ -2776,7 +2798,18 @@ pub fn run(opts: &Options, prop: &str) -> Report {
                         }
                         _ => {
                             // make sure a fitting request will be around, then lie on the next one
-                            if a.is_bp() {
+                            if *a == Attack::BpForgedTwin {
+                                // the user asks for a block of the chain and for a made-up
+                                // header with the same number
+                                if let Some(h) = ctx.pick_header(&mut r, &Target::OnChain) {
+                                    if let Some(n) = ctx.chain().number_of_hash(&h) {
+                                        let f = forged_header(&ctx.chain().header(n), r.next());
+                                        ctx.forged_h.insert(f.hash(), f.clone());
+                                        ctx.fetch_header(&h, &mut sink, &mut rep);
+                                        ctx.fetch_header(&f.hash(), &mut sink, &mut rep);
+                                    }
+                                }
+                            } else if a.is_bp() {
                                 let t = if *a == Attack::BpForgedRequested { Target::Forged } else { Target::OnChain };
                                 for _ in 0..r.range(1, 3) {
                                     if let Some(h) = ctx.pick_header(&mut r, &t) {
